@@ -37,7 +37,7 @@ let c12_on lang cfg (pd : Model.parsed) : sx =
     match lang with
     | "swift" -> let c = sw_cfg cfg in (Model.c12_sw_observe uc c pd, Model.c12_sw_dom c items, None)
     | "scala" -> let c = sc_cfg cfg in (Model.c12_sc_observe uc c pd, Model.c12_sc_dom pd, Model.c12_sc_known c pd)
-    | "go" -> let c = go_cfg cfg in (Model.c12_go_observe uc c pd, Model.c12_go_dom c items, None)
+    | "go" -> let c = go_cfg cfg in (Model.c12_go_observe uc c pd, Model.c12_go_dom c items || Model.c12_go_dom_acr c items, None)
     | "kotlin" -> let c = kt_cfg cfg in (Model.c12_kt_observe uc c pd, true, Model.c12_kt_known c pd)
     | "python" -> let c = py_cfg cfg in (Model.c12_py_observe uc c pd, Model.c12_py_dom c items, Model.c12_py_known c pd)
     | _ -> raise (Bad ("c12: no reader for " ^ lang)) in
